@@ -218,7 +218,7 @@ def on_face(c, r, i):
 
 
 def held_inward(c, r, tol):
-    """finding F-33's predicate: some component lies on a face although its gradient points into the box, and the
+    """finding F-65's predicate: some component lies on a face although its gradient points into the box, and the
     gradient over the components that are NOT on a face is within the threshold (i.e. the whole excess is due to
     variables the Levenberg minimizer kept pinned)"""
     n = c["n"]
@@ -288,7 +288,7 @@ def oracle_c18(c, r, err=""):
             bad.append(("rounding-overshoot-at-face<=4ulp", "box left by %.3g (<= %d ulp of %.3g) at %s: rounding of x + (a*s)*d at a face reached by a line-search step"
                         % (v, ULPS, scale, where)))
         elif v == float("inf") and c["algo"] == "L-BFGS" and c["f"] == "lin":
-            # F-32: zero curvature along the last step (linear cost): 1/max(s.y, 10*DBL_MIN) blows the two-loop direction up
+            # F-64: zero curvature along the last step (linear cost): 1/max(s.y, 10*DBL_MIN) blows the two-loop direction up
             bad.append(("lbfgs-zero-curvature-nan-state", "a NaN state was handed to the user at %s (L-BFGS on a cost with zero "
                         "curvature: rho = 1/(10*DBL_MIN))" % where))
         else:
@@ -324,7 +324,7 @@ def oracle_c18(c, r, err=""):
         if not (gn <= tol * (1 + 1e-12) + 1e-300):
             sig = "converged-but-free-gradient-large"
             if c["algo"] in SECOND_ORDER and held_inward(c, r, tol):
-                sig = "lm-converged-with-inward-gradient-at-bound"     # F-33
+                sig = "lm-converged-with-inward-gradient-at-bound"     # F-65
             bad.append((sig, "status converged, but the gradient norm over the components not pinned by the "
                         "gradient's sign is %r > threshold %r (pinned: %s)" % (gn, tol, pinned)))
     # --- iteration budget
@@ -775,9 +775,9 @@ def oracle_c19(c, r, err=""):
     if st != 0:
         sig = "not-converged"
         if c["algo"] in FIRST_ORDER and st == 2 and r["nit"] >= 50 * n:
-            sig = "first-order-budget-exhausted"                     # F-34
+            sig = "first-order-budget-exhausted"                     # F-66
         elif c["algo"] in SECOND_ORDER and st == 3 and last_cap_frac(r) == 0.0:
-            sig = "lm-stuck-free-variable-on-face"                   # F-35
+            sig = "lm-stuck-free-variable-on-face"                   # F-67
         bad.append((sig, "status %s after %d iterations (budget 50*n = %d) on a strictly convex quadratic with "
                     "condition number %.3g" % (ST.get(st, st), r["nit"], 50 * n, c["lmax"] / c["lmin"])))
         return bad
@@ -790,7 +790,7 @@ def oracle_c19(c, r, err=""):
     if dist > limit:
         sig = "converged-at-wrong-point"
         if c["algo"] in SECOND_ORDER and held_inward(c, r, c["tol"]):
-            sig = "lm-converged-at-non-kkt-point-held-at-bound"      # F-33
+            sig = "lm-converged-at-non-kkt-point-held-at-bound"      # F-65
         bad.append((sig, "status converged at distance %.6g from the KKT point (allowed tol/lambda_min = %.6g): x = %r, x* = %r"
                     % (dist, limit, r["x"], [float(v) for v in xs])))
     return bad
